@@ -150,7 +150,9 @@ Lemma equals_unk_gs tu ru k a' k' rA :
            if negb (str_eqb (r_prefix x) []) || negb (rf_plain ru) || negb (r_lenlo x =? 0)
               || (match r_lenhi x with Some _ => true | None => false end)
            then OUnsupported
-           else if has_dyn tu then OOk unk_bool_nn
+           else if has_dyn tu then
+             (if ty_conf (type_of k) tu then OOk unk_bool_nn
+              else if has_dyn (type_of k) then OUnsupported else OOk (VBool false))
            else if negb (ty_eqb tu (type_of k)) then
              (if has_dyn (type_of k) then OUnsupported else OOk (VBool false))
            else OOk unk_bool_nn
@@ -170,7 +172,17 @@ Proof.
     { destruct a'; try reflexivity. simpl in Rr. rewrite Nn in Rr. discriminate. }
     rewrite (ceq_one_null_r a' (VNull t) Na eq_refl), (ceq_one_null_l (VNull t) a' eq_refl Na). split; reflexivity. }
   all: match type of E with (if ?c then _ else _) = _ => destruct c end; [discriminate|].
-  all: destruct (has_dyn tu) eqn:Hd; [injection E as <-; split; apply Unk|].
+  all: destruct (has_dyn tu) eqn:Hd;
+       [match type of E with (if ty_conf ?tk ?tw then _ else _) = _ => destruct (ty_conf tk tw) eqn:Ec end;
+        [injection E as <-; split; apply Unk|];
+        match type of E with (if ?c then _ else _) = _ => destruct c eqn:Hk end; [discriminate|];
+        injection E as <-;
+        pose proof (gsb_type_eq _ _ Gk Hk) as Tk;
+        assert (Nk : null_shape k' = false) by (simpl in Gk; destruct k'; try discriminate Gk; reflexivity);
+        (destruct (null_shape a') eqn:Na;
+         [rewrite (ceq_one_null_l a' k' Na Nk), (ceq_one_null_r k' a' Nk Na); split; reflexivity|]);
+        assert (Td : type_of a' <> type_of k') by (intros Q; rewrite Q, Tk in Cf; rewrite Cf in Ec; discriminate Ec);
+        rewrite (ceq_types_differ a' k' Na Nk Td), (ceq_types_differ k' a' Nk Na (not_eq_sym Td)); split; reflexivity|].
   all: match type of E with (if negb (ty_eqb ?t1 ?tk) then _ else _) = _ => destruct (ty_eqb t1 tk) eqn:Et end;
        cbn [negb] in E; [injection E as <-; split; apply Unk|].
   all: match type of E with (if ?c then _ else _) = _ => destruct c eqn:Hk end; [discriminate|].
